@@ -477,3 +477,53 @@ SQL_DATA_OPS = (
     ("join", ("Y", ("proj", ("a", "b"))), None, False),
     ("join", ("K2",), None, False),
 )
+
+
+# ------------------------------------------------------------------ expression-rich alphabets (C01, C02)
+def _expr_ops(cols=("a", "b", "c")):
+    a, b, c = (R(x) for x in cols)
+    scal = [
+        ("neg", a),
+        ("add", a, b),
+        ("sub", a, c),
+        ("mul", a, b),
+        ("add", ("mul", a, L(2)), b),
+        ("sub", L(3), ("neg", b)),
+        ("mul", ("add", a, L(-2)), ("sub", b, L(1))),
+    ]
+    cmps = [(k, x, y) for k in ("eq", "ne", "lt", "le", "gt", "ge") for x, y in ((a, b), (a, L(2)), (("add", a, b), c), (L(1), b))]
+    preds = list(cmps)
+    preds += [
+        ("and", ("gt", a, L(1)), ("le", b, L(1))),
+        ("or", ("lt", a, L(2)), ("eq", b, L(2))),
+        ("not", ("or", ("gt", a, L(1)), ("eq", b, L(1)))),
+        ("and", ("or", ("eq", a, L(1)), ("eq", a, L(3))), ("not", ("eq", b, L(2))), ("plit", True)),
+        ("or",),
+        ("and",),
+        ("not", ("and",)),
+        ("in_range", a, (1, 4, 2)),
+        ("in_range", a, (3, 0, -1)),
+        ("in_range", ("sub", a, b), (-2, 2, 1)),
+        ("in_range", a, (5, 5, 1)),
+        ("in_seq", a, (b, L(3))),
+        ("in_seq", ("add", a, b), (L(3), L(4), c)),
+        ("in_seq", a, ()),
+    ]
+    ops = [("sel", p) for p in preds]
+    ops += [("calc", "x", e) for e in scal]
+    ops += [("calc", "y", ("mul", R("x"), L(-1)))]
+    ops += [
+        S((scal[1], DESC), (a, ASC)),
+        S((scal[0], ASC), (c, DESC), (b, ASC)),
+        S((R("x"), DESC), (c, ASC), (a, ASC), (b, ASC)),
+        S((scal[6], ASC), (c, ASC), (a, ASC), (b, ASC)),
+        ("dedup",),
+        ("slice", 1, 4),
+        ("proj", ("a", "b")),
+        ("proj", ("x", "c")),
+        ("chain", ("self",)),
+    ]
+    return tuple(ops)
+
+
+EXPR_OPS = _expr_ops()
